@@ -61,6 +61,11 @@ StaleInert(act, pre, post) ==
   (act.a = "msg" /\ Mem(pre, act.x).st # 0 /\ act.lt <= Mem(pre, act.x).lt)
      => (post.mem = pre.mem /\ post.failed = pre.failed /\ post.left = pre.left)
 
+\* a member that is not known yet has its pending status in the intent buffer: the buffered time only grows too
+\* (the buffer is emptied only by expiry, which shows as "no intent" in between)
+BufferedTimeMonotone(pre, post) ==
+  \A i \in 1..NN : (pre.intents[i].ty # 0 /\ post.intents[i].ty # 0) => post.intents[i].lt >= pre.intents[i].lt
+
 \* the same for the intents a state sync carries (left members: a leave one past the listed time;
 \* the others: a join at the listed time)
 MergeStaleInert(act, pre, post) ==
@@ -117,6 +122,7 @@ PrunedGone(act, pre, post) ==
 Clauses(m, act, pre, post) ==
        (IF StatusTimeMonotone(pre, post)   THEN {} ELSE {"C02_status_time_decreased"})
   \cup (IF StaleInert(act, pre, post)      THEN {} ELSE {"C02_stale_intent_changed_state"})
+  \cup (IF BufferedTimeMonotone(pre, post) THEN {} ELSE {"C02_buffered_intent_time_decreased"})
   \cup (IF MergeStaleInert(act, pre, post) THEN {} ELSE {"C02_stale_synced_intent_changed_state"})
   \cup (IF SelfAlive(post)                 THEN {} ELSE {"C03_self_not_alive"})
   \cup (IF Refuted(act, pre, post)         THEN {} ELSE {"C03_claim_not_refuted"})
